@@ -42,4 +42,42 @@ func (*Renderer).renderImage
   callassert [safeSrc] util.EscapeHTML#1: r.Unsafe || !dangerous(arg0)
 func (*Renderer).renderAutoLink
   callassert [safeHref] util.EscapeHTML#1: r.Unsafe || n.AutoLinkType == ast.AutoLinkEmail || !dangerous(arg0)
+
+// ---- safe-mode output (C03): whatever reaches the output writer is a template literal or inert bytes ----
+// rawAllowed(): this render runs in unsafe mode (each node renderer assumes rawAllowed() <==> r.Unsafe)
+ghost rawAllowed() bool
+// a piece may be written if it is a compile-time string constant (its vocabulary is checked by the scan
+// `literal-vocabulary`) or if it is inert: no raw < > " and every & heads one of the four references
+iface util.BufWriter.Write
+  requires [inertOrLiteral] rawAllowed() || arrof(p) < 0 || util.inert(p)
+iface util.BufWriter.WriteString
+  requires [inertOrLiteral] rawAllowed() || arrof(s) < 0 || util.inert(s)
+iface util.BufWriter.WriteRune
+  requires [noMarkupRune] rawAllowed() || (r != '<' && r != '>' && r != '"' && r != '&')
+
+axiom replacementFacts: len(replacementCharacter) == 3 && replacementCharacter[0] == 239 && replacementCharacter[1] == 191 && replacementCharacter[2] == 189
+
+// the escaping writer: every method only ever writes inert pieces (SecureWrite is for unsafe mode only)
+iface html.Writer.Write
+  modifies nothing
+iface html.Writer.RawWrite
+  modifies nothing
+iface html.Writer.SecureWrite
+  requires rawAllowed()
+  modifies nothing
+
+func escapeRune
+  modifies nothing
+func (*defaultWriter).RawWrite
+  modifies nothing
+  loop 0 inv 0 <= n && n <= i && i <= l && l == len(source)
+  loop 0 inv forall k int :: i - n <= k && k < i ==> !util.needsHTMLEscape(source[k])
+func (*defaultWriter).SecureWrite
+  requires rawAllowed()
+  modifies nothing
+  loop 0 inv 0 <= n && n <= i && i <= l && l == len(source)
+func (*defaultWriter).Write
+  uses replacementFacts
+  modifies util.entityTable
+  loop 0 inv 0 <= n && 0 <= i && i <= limit && limit == len(source)
 @*/
